@@ -115,7 +115,18 @@ impl AffineRepr for AffinePoint {
     }
 
     fn from_random_bytes(bytes: &[u8]) -> Option<Self> {
-        EdwardsAffine::from_random_bytes(bytes).map(|inner| AffinePoint { inner })
+        // The generic sampler returns arbitrary points of the curve, of which only
+        // about half represent decaf377 elements. As in `Distribution<Element>`,
+        // reject everything that is not a valid representative, i.e. whose
+        // encoding does not decode back to the same element.
+        let point = AffinePoint {
+            inner: EdwardsAffine::from_random_bytes(bytes)?,
+        };
+        let element: Element = point.into();
+        match element.vartime_compress().vartime_decompress() {
+            Ok(decoded) if decoded == element => Some(point),
+            _ => None,
+        }
     }
 
     fn mul_bigint(&self, other: impl AsRef<[u64]>) -> Self::Group {
